@@ -11,6 +11,7 @@ lists over any ordered field (all lengths).  The coded rules themselves (`Fn.con
 import OdlModel.Lemmas.Functionals
 import OdlModel.Lemmas.WeightedSpace
 import OdlModel.Model.Prox
+import OdlModel.Model.FunctionalsProx
 import Mathlib.Analysis.InnerProductSpace.Basic
 import Mathlib.Algebra.Order.Field.Basic
 import Mathlib.Algebra.Order.Group.MinMax
@@ -1741,3 +1742,712 @@ example : ∀ t', (Fn.lscal 2 (.trans (.coord (.huber (1 / 2))) (WSp.of ![1, -1]
       Fn (WSp ![1 / 4, 1 / 4]) ℝ).conj (wOps ![1 / 4, 1 / 4]) = some t' → t'.evaluable = true :=
   fun t' h => C08.conj_evaluable _ _ t' (by show (0 : ℝ) < 1 / 2; norm_num) h
 end final
+
+/-! ### ROUND 4 — Moreau decomposition about the EXECUTED definitions
+
+`moreauPair` (Model/FunctionalsProx.lean) is what the driver runs for the op `moreau`: the
+proximal factories chosen by the `proximal` properties (`Fn.toProx`, evaluated by C07's
+`Prox.Fn.prox`) for `f` and for the CODED conjugate `Fn.conj f`.  The stream `moreau-model` of
+tools/harness/c08.py compares both proximals with the live objects. -/
+section moreau_exec
+variable {K : Type} [Field K] [LinearOrder K] [IsStrictOrderedRing K]
+
+/-- Helper: `idxMap` with an index-free body is `List.map` (all lengths). -/
+theorem C08.idxMap_map (x : List K) (φ : K → K) :
+    OdlModel.Prox.idxMap x (fun _ xi => φ xi) = x.map φ := by
+  unfold OdlModel.Prox.idxMap
+  apply List.ext_getElem <;> simp
+
+/-- Helper: `p1 + σ·p2` entry by entry when both proximals are entry-wise maps and the second is
+evaluated at `x/σ` (all lengths). -/
+theorem C08.moreauLhs_map (σ : K) (x : List K) (φ ψ : K → K)
+    (h : ∀ t, φ t + σ * ψ (t / σ) = t) :
+    moreauLhs σ (x.map φ) ((x.map (· / σ)).map ψ) = x := by
+  unfold moreauLhs
+  induction x with
+  | nil => rfl
+  | cons a t ih => simp only [List.map_cons, List.zipWith_cons_cons, ih, h a]
+
+/-- Helper: as `moreauLhs_map`, the second map already composed with `·/σ`. -/
+theorem C08.moreauLhs_map2 (σ : K) (x : List K) (φ ψ : K → K)
+    (h : ∀ t, φ t + σ * ψ t = t) :
+    moreauLhs σ (x.map φ) (x.map ψ) = x := by
+  unfold moreauLhs
+  induction x with
+  | nil => rfl
+  | cons a t ih => simp only [List.map_cons, List.zipWith_cons_cons, ih, h a]
+
+/-- Helper: `ProximalConvexConjL1._call` with radius 1 and no data term is the clip to `[-1, 1]`. -/
+theorem C08.ccL1_one (y : K) :
+    OdlModel.Prox.ccL1Code 1 0 y = if 1 < y then 1 else if y < -1 then -1 else y := by
+  unfold OdlModel.Prox.ccL1Code OdlModel.Prox.maxK OdlModel.Prox.absK
+  simp only [sub_zero, div_one]
+  by_cases h0 : y < 0
+  · simp only [h0, if_true]
+    by_cases h1 : -y ≤ 1
+    · have : ¬ (1 < y) := by linarith
+      have h2 : ¬ (y < -1) := by linarith
+      simp [h1, this, h2]
+    · have : ¬ (1 < y) := by linarith
+      have h2 : (y < -1) := by linarith
+      have hy : -y ≠ 0 := by linarith
+      have hy' : y ≠ 0 := by linarith
+      simp only [h1, if_false, this, h2, if_true]
+      field_simp
+  · simp only [h0, if_false]
+    by_cases h1 : y ≤ 1
+    · have : ¬ (1 < y) := by linarith
+      have h2 : ¬ (y < -1) := by linarith
+      simp [h1, this, h2]
+    · have : (1 < y) := by linarith
+      have hy : y ≠ 0 := by linarith
+      simp only [h1, if_false, this, if_true]
+      field_simp
+
+/-- **Moreau decomposition for the hand-coded Huber pair** (entry-wise): `ProximalHuber`
+(`Huber.proximal(σ)`, C07's `huberCode`) and the proximal of the coded conjugate
+`FunctionalQuadraticPerturb(IndicatorLpUnitBall(∞), quadratic_coeff = γ/2)`, i.e.
+`proximal_quadratic_perturbation` (`c · (1/c) · P(c·(c·y))` with `c = 1/np.sqrt(2σ'a + 1)`,
+`σ' = 1/σ`, `a = γ/2`) around `ProximalConvexConjL1` (unfudged radius 1), satisfy
+`prox_{σ f}(x) + σ·prox_{f*/σ}(x/σ) = x`.  `c` is any positive number with
+`c² (2σ'a + 1) = 1` (an exact square root). -/
+theorem C08.moreau_huber_coded (γ σ x c : K) (hγ : 0 < γ) (hσ : 0 < σ) (hc : 0 < c)
+    (hcc : c * c * (1 / σ * (1 + 1) * (γ / (1 + 1)) + 1) = 1) :
+    OdlModel.Prox.huberCode γ σ x
+      + σ * (c * (1 / c * OdlModel.Prox.ccL1Code 1 0 (c * (c * (x / σ))))) = x := by
+  have hcne : c ≠ 0 := ne_of_gt hc
+  have hσne : σ ≠ 0 := ne_of_gt hσ
+  have hgs : 0 < γ + σ := by linarith
+  have hcc2 : c * c = σ / (γ + σ) := by
+    have : c * c * ((γ + σ) / σ) = 1 := by
+      rw [← hcc]; field_simp
+    field_simp
+    have h2 : c * c * (γ + σ) = σ := by
+      field_simp at this; linarith
+    linarith
+  have harg : c * (c * (x / σ)) = x / (γ + σ) := by
+    rw [← mul_assoc, hcc2]; field_simp
+  rw [harg, C08.ccL1_one]
+  have e1 : c * (1 / c * (if 1 < x / (γ + σ) then (1:K) else if x / (γ + σ) < -1 then -1 else x / (γ + σ)))
+      = (if 1 < x / (γ + σ) then (1:K) else if x / (γ + σ) < -1 then -1 else x / (γ + σ)) := by
+    field_simp
+  rw [e1]
+  unfold OdlModel.Prox.huberCode OdlModel.Prox.absK
+  have hd1 : (1 < x / (γ + σ)) ↔ γ + σ < x := by rw [lt_div_iff₀ hgs]; simp
+  have hd2 : (x / (γ + σ) < -1) ↔ x < -(γ + σ) := by rw [div_lt_iff₀ hgs]; simp
+  simp only [hd1, hd2]
+  by_cases h0 : x < 0
+  · simp only [h0, if_true]
+    have n1 : ¬ (γ + σ < x) := by linarith
+    by_cases h1 : -x ≤ γ + σ
+    · have n2 : ¬ (x < -(γ + σ)) := by linarith
+      simp only [h1, n1, n2, if_true, if_false]; field_simp; try ring
+    · have n2 : (x < -(γ + σ)) := by linarith
+      have hx : -x ≠ 0 := by linarith
+      have hx' : x ≠ 0 := by linarith
+      simp only [h1, n1, n2, if_true, if_false]; field_simp; try ring
+  · simp only [h0, if_false]
+    have n2 : ¬ (x < -(γ + σ)) := by linarith
+    by_cases h1 : x ≤ γ + σ
+    · have n1 : ¬ (γ + σ < x) := by linarith
+      simp only [h1, n1, n2, if_true, if_false]; field_simp; try ring
+    · have n1 : (γ + σ < x) := by linarith
+      have hx' : x ≠ 0 := by linarith
+      simp only [h1, n1, n2, if_true, if_false]; field_simp; try ring
+
+
+
+/-- Helper: scalar multiplication of C07's `Vec` is the entry-wise map. -/
+theorem C08.vec_smul_data (c : K) (v : OdlModel.Prox.Vec K) :
+    (c • v).data = v.data.map (c * ·) := rfl
+
+/-- Moreau for the coded pair (IndicatorLpUnitBall(inf), L1Norm), entry-wise. -/
+theorem C08.moreau_linf_coded (σ x : K) (hσ : 0 < σ) :
+    OdlModel.Prox.ccL1Code 1 0 x + σ * OdlModel.Prox.softCode (1 / σ) (x / σ) 0 = x := by
+  have hne : σ ≠ 0 := ne_of_gt hσ
+  rw [C08.ccL1_one]
+  unfold OdlModel.Prox.softCode OdlModel.Prox.maxK OdlModel.Prox.absK
+  simp only [sub_zero]
+  have hdiv : (x / σ < 0) ↔ x < 0 := by
+    rw [div_lt_iff₀ hσ]; simp
+  by_cases h0 : x < 0
+  · have h0' : x / σ < 0 := hdiv.mpr h0
+    have e : -(x / σ) / (1 / σ) = -x := by field_simp
+    simp only [h0', if_true, e]
+    have n1 : ¬ (1 < x) := by linarith
+    by_cases h1 : -x ≤ 1
+    · have n2 : ¬ (x < -1) := by linarith
+      simp only [h1, n1, n2, if_true, if_false]; field_simp; try ring
+    · have n2 : x < -1 := by linarith
+      have hx : -x ≠ 0 := by linarith
+      have hx' : x ≠ 0 := by linarith
+      simp only [h1, n1, n2, if_true, if_false]; field_simp; try ring
+  · have h0' : ¬ x / σ < 0 := fun h => h0 (hdiv.mp h)
+    have e : (x / σ) / (1 / σ) = x := by field_simp
+    simp only [h0', if_false, e]
+    have n2 : ¬ (x < -1) := by linarith
+    by_cases h1 : x ≤ 1
+    · have n1 : ¬ (1 < x) := by linarith
+      simp only [h1, n1, n2, if_true, if_false]; field_simp; try ring
+    · have n1 : 1 < x := by linarith
+      have hx' : x ≠ 0 := by linarith
+      simp only [h1, n1, n2, if_true, if_false]; field_simp; try ring
+
+/-- **Moreau decomposition, executed pair, L1Norm** (all lengths, all weights, all `x`, all
+`σ > 0`): what the driver computes for `moreau f=l1` — `L1Norm.proximal(σ)(x)` and
+`L1Norm.convex_conj.proximal(1/σ)(x/σ)` through the coded `Fn.conj` and the factories chosen by
+`Fn.toProx` — adds up to `x` (with the unfudged radius `lamF = 1`; the code uses
+`1 − 10⁻¹⁴`, which the correspondence run passes as `lamf`). -/
+theorem C08.moreau_exec_l1 (E : OdlModel.Prox.Env K) (w x : List K) (σ : K) (hσ : 0 < σ) :
+    ∃ p1 p2, moreauPair E 1 w (.coord .l1) σ x = .ok p1 p2 x := by
+  have key : moreauLhs σ ((OdlModel.Prox.Fn.l1 1 none).prox E w (.sc σ) x)
+      ((OdlModel.Prox.Fn.ccl1 1 none).prox E w (.sc (1 / σ)) (x.map (· / σ))) = x := by
+    simp only [OdlModel.Prox.Fn.prox, OdlModel.Prox.Sig.at, OdlModel.Prox.gAt]
+    rw [C08.idxMap_map, C08.idxMap_map]
+    apply C08.moreauLhs_map
+    intro t
+    simpa [mul_one, mul_zero] using C08.moreau_l1_coded σ t hσ
+  simp only [moreauPair, Fn.conj, Fn.toProx]
+  rw [key]
+  exact ⟨_, _, rfl⟩
+
+/-- **Moreau decomposition, executed pair, IndicatorLpUnitBall(∞)** (conjugate: `L1Norm`). -/
+theorem C08.moreau_exec_linf (E : OdlModel.Prox.Env K) (w x : List K) (σ : K) (hσ : 0 < σ) :
+    ∃ p1 p2, moreauPair E 1 w (.coord .indLinf) σ x = .ok p1 p2 x := by
+  have key : moreauLhs σ ((OdlModel.Prox.Fn.ccl1 1 none).prox E w (.sc σ) x)
+      ((OdlModel.Prox.Fn.l1 1 none).prox E w (.sc (1 / σ)) (x.map (· / σ))) = x := by
+    simp only [OdlModel.Prox.Fn.prox, OdlModel.Prox.Sig.at, OdlModel.Prox.gAt]
+    rw [C08.idxMap_map, C08.idxMap_map]
+    apply C08.moreauLhs_map
+    intro t
+    simpa [mul_one, mul_zero] using C08.moreau_linf_coded σ t hσ
+  simp only [moreauPair, Fn.conj, Fn.toProx]
+  rw [key]
+  exact ⟨_, _, rfl⟩
+
+/-- **Moreau decomposition, executed pair, L2NormSquared** (conjugate: `(1/4)·L2NormSquared`,
+proximal through `FunctionalLeftScalarMult.proximal`). -/
+theorem C08.moreau_exec_l2sq (E : OdlModel.Prox.Env K) (w x : List K) (σ : K) (hσ : 0 < σ) :
+    ∃ p1 p2, moreauPair E 1 w .l2sq σ x = .ok p1 p2 x := by
+  have h4 : (1 : K) / ((1 + 1) * (1 + 1)) = 1 / 4 := by norm_num
+  have key : moreauLhs σ ((OdlModel.Prox.Fn.l2sq 1 none).prox E w (.sc σ) x)
+      ((OdlModel.Prox.Fn.leftScale (.l2sq 1 none) (1 / ((1 + 1) * (1 + 1)))).prox E w (.sc (1 / σ))
+        (x.map (· / σ))) = x := by
+    simp only [OdlModel.Prox.Fn.prox, OdlModel.Prox.Sig.scale, OdlModel.Prox.gAt]
+    rw [C08.idxMap_map, C08.idxMap_map]
+    apply C08.moreauLhs_map
+    intro t
+    rw [h4]
+    exact C08.moreau_l2sq_coded σ t hσ
+  have n1 : ¬ ((1 : K) / ((1 + 1) * (1 + 1)) < 0) := by rw [h4]; norm_num
+  have n2 : ¬ ((1 : K) / ((1 + 1) * (1 + 1)) = 0) := by rw [h4]; norm_num
+  simp only [moreauPair, Fn.conj, Fn.toProx, two, n1, n2, if_false, Option.map_some]
+  rw [key]
+  exact ⟨_, _, rfl⟩
+
+/-- **Moreau decomposition, executed pair, ConstantFunctional** (`proximal_const_func` and the
+`ZeroOperator` of `IndicatorZero.proximal`). -/
+theorem C08.moreau_exec_const (E : OdlModel.Prox.Env K) (w x : List K) (σ c : K) (_hσ : 0 < σ) :
+    ∃ p1 p2, moreauPair E 1 w (.const c) σ x = .ok p1 p2 x := by
+  have key : moreauLhs σ ((OdlModel.Prox.Fn.const).prox E w (.sc σ) x)
+      ((OdlModel.Prox.Fn.izero).prox E w (.sc (1 / σ)) (x.map (· / σ))) = x := by
+    simp only [OdlModel.Prox.Fn.prox]
+    have : x = x.map id := by simp
+    conv_lhs => rw [this]
+    conv_rhs => rw [this]
+    rw [List.map_id]
+    have := C08.moreauLhs_map σ x id (fun _ => 0) (by intro t; simp)
+    simpa using this
+  simp only [moreauPair, Fn.conj, Fn.toProx]
+  rw [key]
+  exact ⟨_, _, rfl⟩
+
+/-- **Moreau decomposition, executed pair, IndicatorZero** (conjugate: a constant). -/
+theorem C08.moreau_exec_indzero (E : OdlModel.Prox.Env K) (w x : List K) (σ c : K) (hσ : 0 < σ) :
+    ∃ p1 p2, moreauPair E 1 w (.indZero c) σ x = .ok p1 p2 x := by
+  have hne : σ ≠ 0 := ne_of_gt hσ
+  have key : moreauLhs σ ((OdlModel.Prox.Fn.izero).prox E w (.sc σ) x)
+      ((OdlModel.Prox.Fn.const).prox E w (.sc (1 / σ)) (x.map (· / σ))) = x := by
+    simp only [OdlModel.Prox.Fn.prox]
+    have := C08.moreauLhs_map σ x (fun _ => 0) id (by intro t; simp; field_simp)
+    simpa using this
+  simp only [moreauPair, Fn.conj, Fn.toProx]
+  rw [key]
+  exact ⟨_, _, rfl⟩
+
+/-- The hypothesis on the external square root (`np.sqrt`): exact on positive arguments. -/
+def OdlModel.C08.SqrtOK (E : OdlModel.Prox.Env K) : Prop :=
+  ∀ t, 0 < t → 0 < E.sqrt t ∧ E.sqrt t * E.sqrt t = t
+
+/-- **Moreau decomposition, executed pair, Huber(γ)** (all lengths, `γ > 0`, `σ > 0`): the
+driver's `moreau f=huber|γ` — `proximal_huber` against `proximal_quadratic_perturbation` of
+`proximal_convex_conj_l1`, reached through the coded `Huber.convex_conj` — adds up to `x`,
+provided `np.sqrt` is exact (`SqrtOK`; the driver's `ratSqrt` is exact on rational squares). -/
+theorem C08.moreau_exec_huber (E : OdlModel.Prox.Env K) (hE : OdlModel.C08.SqrtOK E) (w x : List K) (σ γ : K)
+    (hσ : 0 < σ) (hγ : 0 < γ) :
+    ∃ p1 p2, moreauPair E 1 w (.coord (.huber γ)) σ x = .ok p1 p2 x := by
+  have hne : σ ≠ 0 := ne_of_gt hσ
+  have key : moreauLhs σ ((OdlModel.Prox.Fn.huber γ).prox E w (.sc σ) x)
+      ((OdlModel.Prox.Fn.quad (.ccl1 1 none) (γ / (1 + 1)) none).prox E w (.sc (1 / σ))
+        (x.map (· / σ))) = x := by
+    simp only [OdlModel.Prox.Fn.prox, OdlModel.Prox.Sig.scalar, OdlModel.Prox.proxQuadPerturb,
+      OdlModel.Prox.proxArgScaling, Option.map_none, C08.vec_smul_data, OdlModel.Prox.Sig.at,
+      OdlModel.Prox.gAt]
+    rw [C08.idxMap_map]
+    simp only [List.map_map]
+    apply C08.moreauLhs_map2
+    intro t
+    have ht : 0 < 1 / σ * (1 + 1) * (γ / (1 + 1)) + 1 := by positivity
+    obtain ⟨hs1, hs2⟩ := hE _ ht
+    have hs0 : E.sqrt (1 / σ * (1 + 1) * (γ / (1 + 1)) + 1) ≠ 0 := ne_of_gt hs1
+    have hcc : 1 / E.sqrt (1 / σ * (1 + 1) * (γ / (1 + 1)) + 1)
+        * (1 / E.sqrt (1 / σ * (1 + 1) * (γ / (1 + 1)) + 1))
+        * (1 / σ * (1 + 1) * (γ / (1 + 1)) + 1) = 1 := by
+      generalize 1 / σ * (1 + 1) * (γ / (1 + 1)) + 1 = T at *
+      generalize E.sqrt T = S at *
+      rw [show 1 / S * (1 / S) * T = T / (S * S) by field_simp, hs2]
+      exact div_self (ne_of_gt ht)
+    have := C08.moreau_huber_coded γ σ t (1 / E.sqrt (1 / σ * (1 + 1) * (γ / (1 + 1)) + 1)) hγ hσ
+      (by positivity) hcc
+    simpa [Function.comp, mul_zero] using this
+  have n1 : ¬ (γ / (1 + 1) < 0) := not_lt.mpr (by positivity)
+  simp only [moreauPair, Fn.conj, Fn.toProx, two, n1, if_false, Option.map_some, Bool.false_eq_true]
+  rw [key]
+  exact ⟨_, _, rfl⟩
+
+/-! #### derived trees -/
+
+/-- `MoreauAt E w n f`: for every `σ > 0` and every `x` of length `n` the driver's `moreau` op on
+`f` answers `ok p1 p2 lhs` with `lhs = x` (and both proximals have length `n`). -/
+def OdlModel.C08.MoreauAt (E : OdlModel.Prox.Env K) (w : List K) (n : ℕ) (f : Fn (List K) K) : Prop :=
+  ∀ σ x, 0 < σ → x.length = n →
+    ∃ p1 p2, moreauPair E 1 w f σ x = .ok p1 p2 x ∧ p1.length = n ∧ p2.length = n
+
+/-- The same on the level of the two proximal factories. -/
+def OdlModel.C08.MP (E : OdlModel.Prox.Env K) (w : List K) (n : ℕ) (F G : OdlModel.Prox.Fn K) : Prop :=
+  ∀ σ x, 0 < σ → x.length = n →
+    moreauLhs σ (F.prox E w (.sc σ) x) (G.prox E w (.sc (1 / σ)) (x.map (· / σ))) = x ∧
+    (F.prox E w (.sc σ) x).length = n ∧
+    (G.prox E w (.sc (1 / σ)) (x.map (· / σ))).length = n
+
+open OdlModel.C08 in
+theorem C08.moreauAt_of_MP (E : OdlModel.Prox.Env K) (w : List K) (n : ℕ) (f g : Fn (List K) K)
+    (F G : OdlModel.Prox.Fn K) (hg : f.conj (listOps w) = some g) (hF : f.toProx 1 = some F)
+    (hG : g.toProx 1 = some G) (h : MP E w n F G) : MoreauAt E w n f := by
+  intro σ x hσ hx
+  obtain ⟨h1, h2, h3⟩ := h σ x hσ hx
+  refine ⟨_, _, ?_, h2, h3⟩
+  simp only [moreauPair, hg, hF, hG, h1]
+
+theorem C08.moreauLhs_scale (σ c : K) (A B : List K) :
+    moreauLhs σ A (B.map (c * ·)) = moreauLhs (σ * c) A B := by
+  unfold moreauLhs
+  induction A generalizing B with
+  | nil => simp
+  | cons a t ih =>
+    cases B with
+    | nil => simp
+    | cons b u => simp only [List.map_cons, List.zipWith_cons_cons, ih, mul_assoc]
+
+theorem C08.moreauLhs_scale2 (σ c d : K) (hc : c ≠ 0) (A B : List K) :
+    moreauLhs σ (A.map (c * ·)) (B.map (d * ·)) = (moreauLhs (σ * d / c) A B).map (c * ·) := by
+  unfold moreauLhs
+  induction A generalizing B with
+  | nil => simp
+  | cons a t ih =>
+    cases B with
+    | nil => simp
+    | cons b u =>
+      simp only [List.map_cons, List.zipWith_cons_cons, ih]
+      congr 1
+      field_simp
+
+theorem C08.moreauLhs_add (σ : K) (t A B : List K) :
+    moreauLhs σ (List.zipWith (· + ·) t A) B = List.zipWith (· + ·) t (moreauLhs σ A B) := by
+  unfold moreauLhs
+  induction t generalizing A B with
+  | nil => simp
+  | cons a t ih =>
+    cases A with
+    | nil => simp
+    | cons b u =>
+      cases B with
+      | nil => simp
+      | cons c v => simp only [List.zipWith_cons_cons, ih, add_assoc]
+
+theorem C08.zip_add_sub (x t : List K) (h : x.length = t.length) :
+    List.zipWith (· + ·) t (List.zipWith (· - ·) x t) = x := by
+  induction x generalizing t with
+  | nil => cases t <;> simp_all
+  | cons a x ih =>
+    cases t with
+    | nil => simp at h
+    | cons b t =>
+      simp only [List.zipWith_cons_cons, List.length_cons, Nat.add_right_cancel_iff] at h ⊢
+      rw [ih t h]; congr 1; ring
+
+theorem C08.zip_sub_div (σ : K) (hσ : σ ≠ 0) (x t : List K) :
+    List.zipWith (· - ·) (x.map (· / σ)) (t.map ((1 / σ) * ·)) = (List.zipWith (· - ·) x t).map (· / σ) := by
+  induction x generalizing t with
+  | nil => simp
+  | cons a x ih =>
+    cases t with
+    | nil => simp
+    | cons b t =>
+      simp only [List.map_cons, List.zipWith_cons_cons, ih]
+      congr 1
+      field_simp
+
+theorem C08.vec_sub_data (a b : OdlModel.Prox.Vec K) :
+    (a - b).data = List.zipWith (· - ·) a.data b.data := rfl
+
+/-- `proximal_arg_scaling` for a non-zero scaling, on lists. -/
+theorem C08.argScale_prox (E : OdlModel.Prox.Env K) (w : List K) (G : OdlModel.Prox.Fn K) (c τ : K)
+    (hc : c ≠ 0) (y : List K) :
+    (OdlModel.Prox.Fn.argScale G c).prox E w (.sc τ) y =
+      (G.prox E w (.sc (τ * (c * c))) (y.map (c * ·))).map ((1 / c) * ·) := by
+  simp only [OdlModel.Prox.Fn.prox, OdlModel.Prox.proxArgScaling0, OdlModel.Prox.proxArgScaling,
+    C08.vec_smul_data]
+  rcases lt_trichotomy c 0 with h | h | h
+  · simp [h, C08.vec_smul_data]
+  · exact absurd h hc
+  · simp [h, not_lt.mpr h.le, C08.vec_smul_data]
+
+open OdlModel.C08 in
+/-- Step: `FunctionalLeftScalarMult` (`s > 0`): proximal `f.proximal(σ s)`, conjugate
+`(s f*)(·/s)` with proximal through `proximal_arg_scaling`. -/
+theorem C08.MP_lscal (E : OdlModel.Prox.Env K) (w : List K) (n : ℕ) (F G G' : OdlModel.Prox.Fn K)
+    (s : K) (hs : 0 < s) (h : MP E w n F G)
+    (hG' : ∀ τ y, G'.prox E w (.sc τ) y = G.prox E w (.sc (τ * s)) y) :
+    MP E w n (.leftScale F s) (.argScale G' (1 / s)) := by
+  intro σ x hσ hx
+  have hsne : s ≠ 0 := ne_of_gt hs
+  have hσne : σ ≠ 0 := ne_of_gt hσ
+  obtain ⟨h1, h2, h3⟩ := h (σ * s) x (by positivity) hx
+  rw [C08.argScale_prox E w G' (1 / s) (1 / σ) (by positivity), hG']
+  have e1 : 1 / σ * (1 / s * (1 / s)) * s = 1 / (σ * s) := by field_simp
+  have e2 : (x.map (· / σ)).map ((1 / s) * ·) = x.map (· / (σ * s)) := by
+    rw [List.map_map]; apply List.map_congr_left; intro a _; simp only [Function.comp]; field_simp
+  have e3 : (1 : K) / (1 / s) = s := by field_simp
+  have e0 : (OdlModel.Prox.Fn.leftScale F s).prox E w (.sc σ) x = F.prox E w (.sc (σ * s)) x := by
+    simp only [OdlModel.Prox.Fn.prox, OdlModel.Prox.Sig.scale]
+  rw [e0, e1, e2, e3, C08.moreauLhs_scale]
+  exact ⟨h1, h2, by rw [List.length_map]; exact h3⟩
+
+open OdlModel.C08 in
+/-- Step: `FunctionalRightScalarMult` (`s ≠ 0`): `proximal_arg_scaling(f.proximal, s)` against the
+proximal of the coded conjugate `f*(·/s)`. -/
+theorem C08.MP_rscal (E : OdlModel.Prox.Env K) (w : List K) (n : ℕ) (F G G' : OdlModel.Prox.Fn K)
+    (s : K) (hs : s ≠ 0) (h : MP E w n F G)
+    (hG' : ∀ τ y, G'.prox E w (.sc τ) y = (OdlModel.Prox.Fn.argScale G (1 / s)).prox E w (.sc τ) y) :
+    MP E w n (.argScale F s) G' := by
+  intro σ x hσ hx
+  have hσne : σ ≠ 0 := ne_of_gt hσ
+  have hss : 0 < s * s := mul_self_pos.mpr hs
+  obtain ⟨h1, h2, h3⟩ := h (σ * (s * s)) (x.map (s * ·)) (by positivity) (by simpa using hx)
+  rw [hG', C08.argScale_prox E w G (1 / s) (1 / σ) (by positivity), C08.argScale_prox E w F s σ hs]
+  have e1 : 1 / σ * (1 / s * (1 / s)) = 1 / (σ * (s * s)) := by field_simp
+  have e2 : (x.map (· / σ)).map ((1 / s) * ·) = (x.map (s * ·)).map (· / (σ * (s * s))) := by
+    rw [List.map_map, List.map_map]; apply List.map_congr_left; intro a _
+    simp only [Function.comp]; field_simp
+  rw [e1, e2, C08.moreauLhs_scale2 σ (1 / s) (1 / (1 / s)) (by positivity)]
+  have e3 : σ * (1 / (1 / s)) / (1 / s) = σ * (s * s) := by field_simp
+  rw [e3, h1, List.map_map]
+  refine ⟨?_, by rw [List.length_map]; exact h2, by rw [List.length_map]; exact h3⟩
+  have : x = x.map id := by simp
+  conv_rhs => rw [this]
+  apply List.map_congr_left; intro a _; simp only [Function.comp, id]; field_simp
+
+theorem C08.sqrt_one (E : OdlModel.Prox.Env K) (hE : OdlModel.C08.SqrtOK E) : E.sqrt 1 = 1 := by
+  obtain ⟨h1, h2⟩ := hE 1 one_pos
+  have : (E.sqrt 1 - 1) * (E.sqrt 1 + 1) = 0 := by ring_nf; rw [pow_two, h2]; ring
+  rcases mul_eq_zero.mp this with h | h
+  · linarith
+  · linarith
+
+open OdlModel.C08 in
+/-- Step: `FunctionalTranslation`: `proximal_translation(f.proximal, t)` against
+`proximal_quadratic_perturbation(f*.proximal, a = 0, u = t)` (the coded conjugate
+`f* + <·, t>`). -/
+theorem C08.MP_trans (E : OdlModel.Prox.Env K) (hE : SqrtOK E) (w : List K) (n : ℕ)
+    (F G : OdlModel.Prox.Fn K) (t : List K) (ht : t.length = n) (h : MP E w n F G) :
+    MP E w n (.trans F t) (.quad G 0 (some t)) := by
+  intro σ x hσ hx
+  have hσne : σ ≠ 0 := ne_of_gt hσ
+  have hlen : (List.zipWith (· - ·) x t).length = n := by simp [hx, ht]
+  obtain ⟨h1, h2, h3⟩ := h σ (List.zipWith (· - ·) x t) hσ hlen
+  have e0 : (OdlModel.Prox.Fn.trans F t).prox E w (.sc σ) x
+      = List.zipWith (· + ·) t (F.prox E w (.sc σ) (List.zipWith (· - ·) x t)) := by
+    simp only [OdlModel.Prox.Fn.prox, OdlModel.Prox.proxTranslation]
+    rfl
+  have e1 : (OdlModel.Prox.Fn.quad G 0 (some t)).prox E w (.sc (1 / σ)) (x.map (· / σ))
+      = G.prox E w (.sc (1 / σ)) ((List.zipWith (· - ·) x t).map (· / σ)) := by
+    simp only [OdlModel.Prox.Fn.prox, OdlModel.Prox.proxQuadPerturb, OdlModel.Prox.proxArgScaling,
+      OdlModel.Prox.Sig.scalar, Option.map_some, mul_zero, zero_add, C08.sqrt_one E hE, div_one,
+      mul_one, one_mul, C08.vec_smul_data, C08.vec_sub_data, List.map_id']
+    rw [← C08.zip_sub_div σ hσne]
+  rw [e0, e1, C08.moreauLhs_add, h1, C08.zip_add_sub x t (by rw [hx, ht])]
+  refine ⟨rfl, ?_, h3⟩
+  simp [h2, ht]
+
+/-- The merging constructor of `OperatorLeftScalarMult` keeps the `is_linear` flag. -/
+theorem C08.isLinear_mkLscal (s : K) (g : Fn (List K) K) :
+    (Fn.mkLscal s g).isLinear = g.isLinear := by
+  cases g <;> rfl
+
+theorem C08.isLinear_mkRscal (s : K) (g : Fn (List K) K) :
+    (Fn.mkRscal g s).isLinear = g.isLinear := by
+  cases g <;> rfl
+
+theorem C08.mkRscal_mkLscal (s c : K) (g : Fn (List K) K) :
+    Fn.mkRscal (Fn.mkLscal s g) c = .rscal (Fn.mkLscal s g) c := by
+  cases g <;> rfl
+
+/-- Proximal of the MERGED left scalar multiplication `s * g` (`g` possibly itself `s₀ * g₀`):
+the factory of `g` at the step `τ s`. -/
+theorem C08.toProx_mkLscal (E : OdlModel.Prox.Env K) (w : List K) (s : K) (hs : 0 < s)
+    (g : Fn (List K) K) (G : OdlModel.Prox.Fn K) (hG : g.toProx 1 = some G) :
+    ∃ G', (Fn.mkLscal s g).toProx 1 = some G' ∧
+      ∀ τ y, G'.prox E w (.sc τ) y = G.prox E w (.sc (τ * s)) y := by
+  have hsn : ¬ s < 0 := not_lt.mpr hs.le
+  have hs0 : s ≠ 0 := ne_of_gt hs
+  by_cases hl : ∃ s0 g0, g = .lscal s0 g0
+  · obtain ⟨s0, g0, rfl⟩ := hl
+    simp only [Fn.mkLscal]
+    rcases lt_trichotomy s0 0 with h | h | h
+    · simp [Fn.toProx, h] at hG
+    · subst h
+      simp only [Fn.toProx, lt_irrefl, if_false, if_true, Option.some.injEq, mul_zero] at hG ⊢
+      subst hG
+      exact ⟨_, rfl, fun τ y => by simp only [OdlModel.Prox.Fn.prox]⟩
+    · have h1 : ¬ s0 < 0 := not_lt.mpr h.le
+      have h2 : s0 ≠ 0 := ne_of_gt h
+      have h3 : ¬ s * s0 < 0 := not_lt.mpr (by positivity)
+      have h4 : s * s0 ≠ 0 := by positivity
+      simp only [Fn.toProx, h1, h2, h3, h4, if_false] at hG ⊢
+      cases hg0 : g0.toProx 1 with
+      | none => simp [hg0] at hG
+      | some G0 =>
+        simp only [hg0, Option.map_some, Option.some.injEq] at hG ⊢
+        subst hG
+        refine ⟨_, rfl, fun τ y => ?_⟩
+        simp only [OdlModel.Prox.Fn.prox, OdlModel.Prox.Sig.scale, mul_assoc]
+  · have e : Fn.mkLscal s g = .lscal s g := by
+      cases g <;> first | rfl | exact absurd ⟨_, _, rfl⟩ hl
+    rw [e]
+    simp only [Fn.toProx, hsn, hs0, if_false, hG, Option.map_some]
+    exact ⟨_, rfl, fun τ y => by simp only [OdlModel.Prox.Fn.prox, OdlModel.Prox.Sig.scale]⟩
+
+/-- Proximal of the MERGED right scalar multiplication `g(c ·)` (`g` possibly itself
+`g₀(s₀ ·)`): the same operator as `proximal_arg_scaling(g.proximal, c)`. -/
+theorem C08.toProx_mkRscal (E : OdlModel.Prox.Env K) (w : List K) (c : K) (hc : c ≠ 0)
+    (g : Fn (List K) K) (G : OdlModel.Prox.Fn K) (hG : g.toProx 1 = some G) :
+    ∃ G', (Fn.mkRscal g c).toProx 1 = some G' ∧
+      ∀ τ y, G'.prox E w (.sc τ) y = (OdlModel.Prox.Fn.argScale G c).prox E w (.sc τ) y := by
+  by_cases hl : ∃ s0 g0, g = .rscal g0 s0
+  · obtain ⟨s0, g0, rfl⟩ := hl
+    simp only [Fn.mkRscal, Fn.toProx] at hG ⊢
+    cases hg0 : g0.toProx 1 with
+    | none => simp [hg0] at hG
+    | some G0 =>
+      simp only [hg0, Option.map_some, Option.some.injEq] at hG ⊢
+      subst hG
+      refine ⟨_, rfl, fun τ y => ?_⟩
+      by_cases h0 : s0 = 0
+      · subst h0
+        rw [C08.argScale_prox E w _ c τ hc]
+        simp only [OdlModel.Prox.Fn.prox, OdlModel.Prox.proxArgScaling0, mul_zero, lt_irrefl,
+          if_false, List.map_map]
+        have : y = y.map id := by simp
+        conv_lhs => rw [this]
+        apply List.map_congr_left; intro a _; simp only [Function.comp, id]; field_simp
+      · rw [C08.argScale_prox E w _ c τ hc, C08.argScale_prox E w _ s0 _ h0,
+          C08.argScale_prox E w _ (c * s0) τ (mul_ne_zero hc h0)]
+        simp only [List.map_map]
+        have e1 : τ * (c * s0 * (c * s0)) = τ * (c * c) * (s0 * s0) := by ring
+        have e2 : y.map (fun x => c * s0 * x) = y.map ((fun x => s0 * x) ∘ fun x => c * x) := by
+          apply List.map_congr_left; intro a _; simp only [Function.comp]; ring
+        rw [e1, e2]
+        apply List.map_congr_left; intro a _; simp only [Function.comp]; field_simp
+  · have e : Fn.mkRscal g c = .rscal g c := by
+      cases g <;> first | rfl | exact absurd ⟨_, _, rfl⟩ hl
+    rw [e]
+    simp only [Fn.toProx, hG, Option.map_some]
+    exact ⟨_, rfl, fun τ y => rfl⟩
+
+/-- Convex expressions whose Moreau decomposition is a theorem about the executed definitions:
+the six built-in classes with a hand-coded proximal (point indicators `IndicatorZero` only with
+a non-zero constant, so that no conjugate is flagged linear) closed under
+`FunctionalScalarSum`, `FunctionalLeftScalarMult` (`s > 0`), `FunctionalRightScalarMult`
+(`s ≠ 0`) and `FunctionalTranslation` (shift of the space's length `n`). -/
+inductive OdlModel.C08.MReg (n : ℕ) : Fn (List K) K → Prop
+  | l1 : MReg n (.coord .l1)
+  | indLinf : MReg n (.coord .indLinf)
+  | huber (γ : K) (h : 0 < γ) : MReg n (.coord (.huber γ))
+  | l2sq : MReg n .l2sq
+  | const (c : K) : MReg n (.const c)
+  | indZero (c : K) (h : c ≠ 0) : MReg n (.indZero c)
+  | ssum (f : Fn (List K) K) (c : K) (h : MReg n f) : MReg n (.ssum f c)
+  | lscal (s : K) (f : Fn (List K) K) (hs : 0 < s) (h : MReg n f) : MReg n (.lscal s f)
+  | rscal (f : Fn (List K) K) (s : K) (hs : s ≠ 0) (h : MReg n f) : MReg n (.rscal f s)
+  | trans (f : Fn (List K) K) (t : List K) (ht : t.length = n) (h : MReg n f) : MReg n (.trans f t)
+
+theorem C08.ok_inj {p1 p2 l q1 q2 m : List K}
+    (h : MoreauOut.ok p1 p2 l = MoreauOut.ok q1 q2 m) : p1 = q1 ∧ p2 = q2 ∧ l = m := by
+  injection h with a b c; exact ⟨a, b, c⟩
+
+open OdlModel.C08 in
+/-- Leaves: the executed pair satisfies `MP` (lengths included). -/
+theorem C08.MP_of_exec (E : OdlModel.Prox.Env K) (w : List K) (n : ℕ) (f g : Fn (List K) K)
+    (F G : OdlModel.Prox.Fn K) (hg : f.conj (listOps w) = some g) (hF : f.toProx 1 = some F)
+    (hG : g.toProx 1 = some G)
+    (hl : ∀ σ x, (F.prox E w (.sc σ) x).length = x.length ∧ (G.prox E w (.sc σ) x).length = x.length)
+    (h : ∀ σ x, 0 < σ → ∃ p1 p2, moreauPair E 1 w f σ x = .ok p1 p2 x) : MP E w n F G := by
+  intro σ x hσ hx
+  obtain ⟨p1, p2, hp⟩ := h σ x hσ
+  simp only [moreauPair, hg, hF, hG] at hp
+  obtain ⟨-, -, h3⟩ := C08.ok_inj hp
+  refine ⟨h3, by rw [(hl σ x).1, hx], by rw [(hl (1 / σ) _).2, List.length_map, hx]⟩
+
+theorem C08.idxMap_length (x : List K) (φ : ℕ → K → K) :
+    (OdlModel.Prox.idxMap x φ).length = x.length := by
+  simp [OdlModel.Prox.idxMap]
+
+open OdlModel.C08 in
+/-- **Moreau decomposition for derived trees, executed definitions** (all lengths `n`, all
+weights, all `x`, all `σ > 0`, all depths): for every expression of `MReg` — built-ins with a
+hand-coded proximal under scalar sums, positive left scalings, non-zero argument scalings and
+translations, nested in any order — the coded `convex_conj` exists, is not flagged linear, both
+`proximal` properties return a factory, and `f.proximal(σ)(x) + σ·f.convex_conj.proximal(1/σ)(x/σ) = x`
+with the proximals as `proximal_operators.py` computes them (including the merging of nested
+scalings by the constructors and the `is_linear` dispatch of `Functional.__mul__`).
+Hypotheses: exact `np.sqrt`, unfudged radius of `proximal_convex_conj_l1`. -/
+theorem C08.moreau_exec_tree_struct (E : OdlModel.Prox.Env K) (hE : SqrtOK E) (w : List K) (n : ℕ)
+    (t : Fn (List K) K) (ht : MReg n t) :
+    ∃ g F G, t.conj (listOps w) = some g ∧ g.isLinear = false ∧ t.toProx 1 = some F ∧
+      g.toProx 1 = some G ∧ MP E w n F G := by
+  induction ht with
+  | l1 =>
+    refine ⟨.coord .indLinf, .l1 1 none, .ccl1 1 none, rfl, rfl, rfl, rfl, ?_⟩
+    exact C08.MP_of_exec E w n _ _ _ _ rfl rfl rfl
+      (fun σ x => by simp [OdlModel.Prox.Fn.prox, C08.idxMap_length])
+      (fun σ x hσ => C08.moreau_exec_l1 E w x σ hσ)
+  | indLinf =>
+    refine ⟨.coord .l1, .ccl1 1 none, .l1 1 none, rfl, rfl, rfl, rfl, ?_⟩
+    exact C08.MP_of_exec E w n _ _ _ _ rfl rfl rfl
+      (fun σ x => by simp [OdlModel.Prox.Fn.prox, C08.idxMap_length])
+      (fun σ x hσ => C08.moreau_exec_linf E w x σ hσ)
+  | huber γ h =>
+    have n1 : ¬ (γ / (1 + 1) < 0) := not_lt.mpr (by positivity)
+    refine ⟨.qp (.coord .indLinf) (γ / two) false (listOps w).zero 0, .huber γ,
+      .quad (.ccl1 1 none) (γ / two) none, rfl, rfl, rfl, ?_, ?_⟩
+    · simp [Fn.toProx, two, n1]
+    refine C08.MP_of_exec E w n _ _ _ _ rfl rfl (by simp [Fn.toProx, two, n1])
+      (fun σ x => ?_) (fun σ x hσ => C08.moreau_exec_huber E hE w x σ γ hσ h)
+    simp [OdlModel.Prox.Fn.prox, OdlModel.Prox.proxQuadPerturb, OdlModel.Prox.proxArgScaling,
+      C08.vec_smul_data, C08.idxMap_length]
+  | l2sq =>
+    have h4 : (1 : K) / ((1 + 1) * (1 + 1)) = 1 / 4 := by norm_num
+    have n1 : ¬ ((1 : K) / ((1 + 1) * (1 + 1)) < 0) := by rw [h4]; norm_num
+    have n2 : ¬ ((1 : K) / ((1 + 1) * (1 + 1)) = 0) := by rw [h4]; norm_num
+    refine ⟨.lscal (1 / (two * two)) .l2sq, .l2sq 1 none,
+      .leftScale (.l2sq 1 none) (1 / (two * two)), rfl, rfl, rfl, ?_, ?_⟩
+    · simp only [Fn.toProx, two, n1, n2, if_false, Option.map_some]
+    refine C08.MP_of_exec E w n _ _ _ _ rfl rfl
+      (by simp only [Fn.toProx, two, n1, n2, if_false, Option.map_some])
+      (fun σ x => ?_) (fun σ x hσ => C08.moreau_exec_l2sq E w x σ hσ)
+    simp [OdlModel.Prox.Fn.prox, OdlModel.Prox.Sig.scale, C08.idxMap_length]
+  | const c =>
+    refine ⟨.indZero (-c), .const, .izero, rfl, rfl, rfl, rfl, ?_⟩
+    exact C08.MP_of_exec E w n _ _ _ _ rfl rfl rfl
+      (fun σ x => by simp [OdlModel.Prox.Fn.prox])
+      (fun σ x hσ => C08.moreau_exec_const E w x σ c hσ)
+  | indZero c h =>
+    refine ⟨.const (-c), .izero, .const, rfl, ?_, rfl, rfl, ?_⟩
+    · simp [Fn.isLinear, h]
+    exact C08.MP_of_exec E w n _ _ _ _ rfl rfl rfl
+      (fun σ x => by simp [OdlModel.Prox.Fn.prox])
+      (fun σ x hσ => C08.moreau_exec_indzero E w x σ c hσ)
+  | ssum f c h ih =>
+    obtain ⟨g, F, G, hg, hlin, hF, hG, hMP⟩ := ih
+    refine ⟨.ssum g (-c), F, G, by simp [Fn.conj, hg], by simp [Fn.isLinear, hlin],
+      by simp [Fn.toProx, hF], by simp [Fn.toProx, hG], hMP⟩
+  | lscal s f hs h ih =>
+    obtain ⟨g, F, G, hg, hlin, hF, hG, hMP⟩ := ih
+    obtain ⟨G', hG', hsem⟩ := C08.toProx_mkLscal E w s hs g G hG
+    have hsn : ¬ s ≤ 0 := not_le.mpr hs
+    have hsn' : ¬ s < 0 := not_lt.mpr hs.le
+    have hs0 : s ≠ 0 := ne_of_gt hs
+    refine ⟨.rscal (Fn.mkLscal s g) (1 / s), .leftScale F s, .argScale G' (1 / s), ?_, ?_, ?_, ?_,
+      C08.MP_lscal E w n F G G' s hs hMP hsem⟩
+    · simp only [Fn.conj, hsn, if_false, hg, Fn.mulScalar, C08.isLinear_mkLscal, hlin,
+        C08.mkRscal_mkLscal]
+      simp
+    · simp [Fn.isLinear, C08.isLinear_mkLscal, hlin]
+    · simp [Fn.toProx, hsn', hs0, hF]
+    · simp [Fn.toProx, hG']
+  | rscal f s hs h ih =>
+    obtain ⟨g, F, G, hg, hlin, hF, hG, hMP⟩ := ih
+    obtain ⟨G', hG', hsem⟩ := C08.toProx_mkRscal E w (1 / s) (by positivity) g G hG
+    refine ⟨Fn.mkRscal g (1 / s), .argScale F s, G', ?_, ?_, ?_, hG',
+      C08.MP_rscal E w n F G G' s hs hMP hsem⟩
+    · simp [Fn.conj, hg, Fn.mulScalar, hlin]
+    · rw [C08.isLinear_mkRscal]; exact hlin
+    · simp [Fn.toProx, hF]
+  | trans f t ht h ih =>
+    obtain ⟨g, F, G, hg, hlin, hF, hG, hMP⟩ := ih
+    refine ⟨.qp g 0 true t 0, .trans F t, .quad G 0 (some t), ?_, ?_, ?_, ?_,
+      C08.MP_trans E hE w n F G t ht hMP⟩
+    · simp [Fn.conj, hg]
+    · simp [Fn.isLinear, hlin]
+    · simp [Fn.toProx, hF]
+    · simp [Fn.toProx, hG]
+open OdlModel.C08 in
+/-- **Moreau decomposition for derived trees — what the driver's `moreau` op answers**: for every
+expression of `MReg n`, every `σ > 0` and every `x` of length `n` the answer is
+`ok p1 p2 lhs` with `lhs = p1 + σ·p2 = x` (never `noconj` / `noprox1` / `noprox2`).  The
+correspondence stream `moreau-model` compares `p1`, `p2` with `f.proximal(σ)(x)` and
+`f.convex_conj.proximal(1/σ)(x/σ)` of the live objects. -/
+theorem C08.moreau_exec_tree (E : OdlModel.Prox.Env K) (hE : SqrtOK E) (w : List K) (n : ℕ)
+    (t : Fn (List K) K) (ht : MReg n t) : MoreauAt E w n t := by
+  obtain ⟨g, F, G, hg, -, hF, hG, hMP⟩ := C08.moreau_exec_tree_struct E hE w n t ht
+  exact C08.moreauAt_of_MP E w n t g F G hg hF hG hMP
+end moreau_exec
+
+section moreau_exec_examples
+open OdlModel.C08
+
+/-- `np.sqrt` read as the real square root. -/
+noncomputable def OdlModel.C08.realEnv : OdlModel.Prox.Env ℝ := { sqrt := Real.sqrt, eps := 0 }
+
+/-- The real square root satisfies the hypothesis `SqrtOK` of the Moreau theorems. -/
+theorem C08.realEnv_sqrtOK : SqrtOK realEnv :=
+  fun _ ht => ⟨Real.sqrt_pos.mpr ht, Real.mul_self_sqrt ht.le⟩
+
+/-- Non-vacuity of `moreau_huber_coded`: `γ = 3`, `σ = 1`, `c = 1/2` (`c²(2σ'a+1) = 4/4`). -/
+example : OdlModel.Prox.huberCode (3 : ℝ) 1 8
+    + 1 * (1 / 2 * (1 / (1 / 2) * OdlModel.Prox.ccL1Code 1 0 (1 / 2 * (1 / 2 * (8 / 1))))) = 8 :=
+  C08.moreau_huber_coded 3 1 8 (1 / 2) (by norm_num) (by norm_num) (by norm_num) (by norm_num)
+
+/-- Non-vacuity of `moreau_exec_huber`: Huber(1/2) on a weighted `R^2`, `σ = 2`. -/
+example : ∃ p1 p2, moreauPair realEnv 1 [1 / 4, 1 / 4] (.coord (.huber (1 / 2))) 2 [3, -1]
+    = .ok p1 p2 [3, -1] :=
+  C08.moreau_exec_huber realEnv C08.realEnv_sqrtOK _ _ _ _ (by norm_num) (by norm_num)
+
+/-- Non-vacuity of `moreau_exec_tree`: `2·Huber_{1/2}(-3(· − t)) + 1` on a weighted `R^2`. -/
+example : ∃ p1 p2, moreauPair realEnv 1 [1 / 4, 1 / 4]
+      (.ssum (.lscal 2 (.rscal (.trans (.coord (.huber (1 / 2))) [1, -1]) (-3))) 1) 3 [5, -7]
+    = .ok p1 p2 [5, -7] ∧ p1.length = 2 ∧ p2.length = 2 :=
+  C08.moreau_exec_tree realEnv C08.realEnv_sqrtOK [1 / 4, 1 / 4] 2 _
+    (.ssum _ _ (.lscal _ _ (by norm_num) (.rscal _ _ (by norm_num)
+      (.trans _ _ rfl (.huber _ (by norm_num)))))) 3 [5, -7] (by norm_num) rfl
+
+/-- The other leaves at a concrete point. -/
+example : (∃ p1 p2, moreauPair realEnv 1 [1, 2] (.coord .indLinf) (1 / 2) [3, -1 / 4]
+      = .ok p1 p2 [3, -1 / 4]) ∧
+    (∃ p1 p2, moreauPair realEnv 1 [1, 2] .l2sq (1 / 2) [3, -1 / 4] = .ok p1 p2 [3, -1 / 4]) ∧
+    (∃ p1 p2, moreauPair realEnv 1 [1, 2] (.indZero 2) (1 / 2) [3, -1 / 4]
+      = .ok p1 p2 [3, -1 / 4]) :=
+  ⟨C08.moreau_exec_linf _ _ _ _ (by norm_num), C08.moreau_exec_l2sq _ _ _ _ (by norm_num),
+   C08.moreau_exec_indzero _ _ _ _ _ (by norm_num)⟩
+end moreau_exec_examples
